@@ -130,7 +130,10 @@ def gen_periph_specs(rng, nper, with_irq=False):
                 if fields:
                     regs[-1].update({"fields": fields, "size": fields[-1]["offset"] + fields[-1]["size"], "atomic": False})
                     regs[-1]["reset"] = sum(f["reset"] << f["offset"] for f in fields)
-        specs.append({"name": "per%d" % pi, "regs": regs, "mem": ({"width": 32, "depth": rng.choice([8, 32])} if rng.random() < 0.35 else None)})
+        # names before and after the SoC's own "ctrl", and (20%) a CSR location fixed by the designer: listing order (by name) and
+        # address order (by location) of the CSR regions then differ
+        specs.append({"name": "%s%d" % (rng.choice(["per", "per", "aux", "zed", "bank"]), pi),
+                      "csr_loc": rng.choice([None, None, None, None, rng.randint(4, 24)]), "regs": regs, "mem": ({"width": 32, "depth": rng.choice([8, 32])} if rng.random() < 0.35 else None)})
         if with_irq and rng.random() < 0.75:
             # an EventManager with 1..3 pulse sources; interrupt number fixed by the designer (30%) or allocated
             specs[-1]["ev"] = {"n": rng.randint(1, 3), "irq": rng.choice([None, None, None, rng.randint(1, 31)])}
@@ -202,6 +205,11 @@ def build_soc(case, rng, specs, init_files):
             p.ev.finalize()
             objs[sp["name"] + "_ev"] = ({"kind": "ev", "n": sp["ev"]["n"]}, p)
         setattr(soc.submodules, sp["name"], p)
+        if sp.get("csr_loc") is not None:
+            try:
+                soc.csr.add(sp["name"], n=sp["csr_loc"])
+            except Exception:
+                env.restore_stderr()          # taken: the allocator will place it
         if sp.get("ev") and soc.irq.enabled:
             try:
                 if sp["ev"]["irq"] is not None:
